@@ -75,6 +75,11 @@ pub mod verif_hooks {
         super::sanity::verif_verify_no_overlap_contiguous(a, b)
     }
 
+    /// Bytes reserved for all side metadata at start-up.
+    pub fn reserved_bytes() -> usize {
+        super::layout::side_metadata_reserved_bytes()
+    }
+
     /// Clear lock poisoning left by a caught sanity-check panic.
     pub fn sanity_clear_poison() {
         super::sanity::verif_clear_poison()
